@@ -368,6 +368,7 @@ pub fn run(cfg: &RunCfg) -> Report {
     children(cfg, &mut rep, &work, &inputs);
     macro_wrapping(cfg, &mut rep);
     builder_sequences(&mut rep, &work);
+    cli_warnings(&mut rep, &work);
     let _ = std::fs::remove_dir_all(&work);
     rep
 }
@@ -600,6 +601,31 @@ fn children(cfg: &RunCfg, rep: &mut Report, work: &Path, inputs: &[(Vec<String>,
                 }
             }
         }
+    }
+}
+
+/// The CLI reports what the library returns: as many warnings on stderr as `compile()` gives, equal ones included.
+fn cli_warnings(rep: &mut Report, work: &Path) {
+    let Ok(cli) = cli_path() else { return };
+    let dir = work.join("warn");
+    let _ = std::fs::remove_dir_all(&dir);
+    let _ = std::fs::create_dir_all(&dir);
+    let text = "Warn-Mod DEFINITIONS AUTOMATIC TAGS ::= BEGIN\nAa ::= REAL\nAb ::= REAL\nBa ::= VideotexString\nBb ::= VideotexString\nOk ::= BOOLEAN\nBad ::= INTEGER (5..1)\nEND\n";
+    let f = dir.join("w.asn");
+    let _ = std::fs::write(&f, text);
+    let lib = Compiler::<RasnBackend, _>::new().add_asn_by_path(&f).set_output_mode(OutputMode::NoOutput).compile();
+    let Ok(lib_warnings) = lib else {
+        rep.harness_errors.push("cli_warnings: the module with unsupported types does not compile".into());
+        return;
+    };
+    let mut c = Command::new(&cli);
+    c.current_dir(&dir).arg("-m").arg(&f).arg("--no-output");
+    let (code, _, err) = run_child(&mut c);
+    rep.evaluations += 1;
+    rep.count("child:cli-warnings");
+    let printed = err.lines().filter(|l| l.contains("warning")).count();
+    if code != 0 || printed != lib_warnings.len() {
+        rep.unsat("", false, json!({"why": format!("the library returns {} warnings for the module, the CLI (exit {code}) prints {printed} warning lines", lib_warnings.len()), "case": {"kind": "cli-warnings", "sources": [text]}}));
     }
 }
 
